@@ -157,6 +157,14 @@ CLAIMED = {
         "Sessions are seeded samples of the model (exhaustive only for the small role-1 model); real timing is "
         "guarded by a 10x slower re-run before a disagreement is reported.",
         "6/C19"),
+    "C04": (
+        "TLA+ spec StoreTxn.tla (transaction steps, Crash in every state, recovery) model-checked; crash experiments on a real "
+        "child-process instance (enumerated hook sites x occurrences + random SIGKILL) validated by TLC against Trace_StoreTxn.tla",
+        "Crash points are enumerated deterministically at every step the transaction model distinguishes and sampled at "
+        "random instants inside SQLite's own work; every experiment's recovered state is validated against the model's "
+        "invariants (durability, atomicity, hash consistency, stable root and key).",
+        "SIGKILL only; batches are single requests; 10 batches per history.",
+        "6/C04"),
     "C20": (
         "TLA+ spec Concurrent.tla (call/linearise/return on an LWW store) model-checked; histories recorded from concurrent "
         "clients of a real instance (-race build) validated by TLC against Trace_Concurrent.tla",
